@@ -258,6 +258,11 @@ func (e Float64Engine) Inner(a, b Tensor) (retVal float64, err error) {
 		return 0, errors.Errorf("b is not a *Dense")
 	}
 
+	if AD.t != Float64 || BD.t != Float64 {
+		// the storage of any other element type would be read as if it held float64s
+		return 0, errors.Errorf("Float64Engine.Inner expects float64 tensors. Got %v and %v", AD.t, BD.t)
+	}
+
 	if AD.RequiresIterator() || BD.RequiresIterator() {
 		// the dot kernel below walks raw storage: non-contiguous views go through the default engine
 		ret, ierr := e.StdEng.Inner(a, b)
